@@ -198,9 +198,13 @@ func parseArgs(argStr string) []string {
 		case (ch == '"' || ch == '\'') && !inQuote:
 			inQuote = true
 			quoteChar = ch
+			// the quotes stay part of the argument text: resolveArgument takes a quoted argument as a string
+			// literal, so "name" is the text name (not the variable) and "" is an empty string (not nothing)
+			current.WriteRune(ch)
 		case ch == quoteChar && inQuote:
 			inQuote = false
 			quoteChar = 0
+			current.WriteRune(ch)
 		case ch == ',' && !inQuote:
 			if current.Len() > 0 {
 				args = append(args, strings.TrimSpace(current.String()))
